@@ -348,10 +348,10 @@ class WSStream:
             await self.send(Data(stream_id=self.stream_id, data=data))
 
     async def _accept(self, message: WebsocketAcceptEvent) -> None:
-        self.state = ASGIWebsocketState.CONNECTED
         status_code, headers, self.connection = self.handshake.accept(
             message.get("subprotocol"), message.get("headers", [])
         )
+        self.state = ASGIWebsocketState.CONNECTED
         await self.send(
             Response(stream_id=self.stream_id, status_code=status_code, headers=headers)
         )
